@@ -140,6 +140,26 @@ def abc_table_obligation(ck):
     ck.coverage['abc_instance_pairs'] = len(rows)
 
 
+def intro_obligation(ck, cases):
+    """layer L1: _has_required_type_arguments / len(get_type_arguments) / _get_name of the implementation against the model's
+    has_required / n_type_args / ann_name on the annotations of this run"""
+    seen, todo = set(), []
+    for c in cases:
+        k = json.dumps(c.get('ann'))
+        if 'ann' in c and k not in seen and c['ann'][0] not in ('none', 'str'):
+            seen.add(k)
+            todo.append({'obs': 'intro', 'ann': c['ann'], 'ctx': c.get('ctx', G.CTX)})
+        if len(todo) >= 600:
+            break
+    impl = ck.run_impl('w_checker', todo, timeout=600)
+    ok = [(t, r) for t, r in zip(todo, impl) if r and r.get('intro') is not None and r.get('ann', ['other'])[0] != 'other']
+    got = ck.coq_eval(PRE, [f'eval_intro {U.coq_ann(r["ann"])}' for _, r in ok], chunk=300) if ck.model_ok and ok else []
+    bad = [(r['ann'], r['intro'], g) for (_, r), g in zip(ok, got) if g is not None and r['intro'] != g]
+    ck.oblige('introspection-layer', 'correspondence', not bad and len(ok) > 0,
+              f'{len(ok)} annotations agree' if not bad else f'{len(bad)} differ, e.g. {json.dumps(bad[0])[:400]}')
+    ck.coverage['introspection_annotations'] = len(ok)
+
+
 def corner_stream(ck):
     """C08, wrapper half: keyword calls on callables that trip the source-text / receiver heuristics of the wrapper"""
     n = ck.run_impl('w_checker', [{'obs': 'corner', 'size': 1}], shards=1)[0]['size']
@@ -229,6 +249,8 @@ def run(pid, tier, seed, replay, props, judge, extra_streams=None, rule_extra=''
         extra_streams(ck, cases)
     impl = ck.run_impl('w_checker', cases, timeout=1200)
     ck.env = {'impl': impl, 'cases': cases}
+    if replay is None and pid in ('C01', 'C02'):
+        intro_obligation(ck, cases)
     ok_idx = [k for k, r in enumerate(impl) if r is not None and 'error' not in r and 'ann' in r]
     terms = [coq_case(cases[k], impl[k]) for k in ok_idx]
     model = ck.coq_eval(PRE, terms, chunk=250) if ck.model_ok else [None] * len(terms)
